@@ -158,6 +158,38 @@ def gurobi_cases(tier):
     return SC.call_cases(policies=("ILP", "TetriSched_Gurobi"), max_tasks=5, batching=False)
 
 
+def commitment_cases(tier):
+    """Planners that may not retract earlier promises, under enforced tight deadlines: the promised (SCHEDULED) tasks often
+    cannot be kept any more, which sends the planners down their 'no feasible solution' paths."""
+    @st.composite
+    def s(draw):
+        case = draw(SC.call_cases(policies=("ILP", "TetriSched_Gurobi", "TetriSched_CPLEX"), max_tasks=5, batching=False, tight_deadlines=True, max_runtime=5))
+        if draw(st.booleans()):
+            # the textbook way into that path: one slot, a task running on it, a second task promised the slot right after it
+            # with a deadline that leaves no slack, and a newcomer; the planners reserve the running task's full runtime
+            # from now (F12), so the promise cannot be kept in the model
+            r1, r2, e = draw(st.integers(2, 5)), draw(st.integers(1, 4)), draw(st.integers(1, 2))
+            e = min(e, r1 - 1)
+            now = case["now"]
+            case["cluster"] = [{"name": "P0", "workers": [{"name": "P0W0", "resources": [["CPU", 1]]}]}]
+            case["profiles"] = [{"name": "pr0", "strategies": [{"runtime": r1, "resources": {"CPU": 1}, "batch": 1}]},
+                                {"name": "pr1", "strategies": [{"runtime": r2, "resources": {"CPU": 1}, "batch": 1}]}]
+            one = lambda n, p: [{"name": n, "profile": p, "children": [], "conditional": False, "terminal": False, "probability": 1.0}]  # noqa: E731
+            case["graphs"] = [{"name": "GA", "jobs": one("GA_j0", 0), "release_time": 0, "deadline": now + 40},
+                              {"name": "GB", "jobs": one("GB_j0", 1), "release_time": 0, "deadline": now + (r1 - e) + r2 + draw(st.integers(0, 1))},
+                              {"name": "GC", "jobs": one("GC_j0", draw(st.integers(0, 1))), "release_time": now, "deadline": now + draw(st.integers(3, 30))}]
+            case["completed"] = []
+            case["running"] = [{"graph": "GA", "job": "GA_j0", "pool": 0, "worker": 0, "strategy": 0, "elapsed": e, "overrun": 0}]
+            case["scheduled"] = [{"graph": "GB", "job": "GB_j0", "pool": 0, "worker": 0, "strategy": 0, "at": r1 - e}]
+        case["policy"]["enforce_deadlines"] = True
+        case["policy"]["retract_schedules"] = False
+        if case["policy"]["name"] == "ILP":
+            case["policy"]["goal"] = "max_goodput"
+        return case
+
+    return s()
+
+
 def batching_cases(tier):
     return SC.call_cases(policies=("ILP", "TetriSched_CPLEX"), max_tasks=5, batching=True, max_runtime=5)
 
@@ -177,6 +209,7 @@ def clockwork_cases(tier):
 CHECKS = [
     Check("greedy_calls", execute, strategy=greedy_cases, budget={"quick": 3000, "thorough": 80000}),
     Check("gurobi_calls", execute, strategy=gurobi_cases, budget={"quick": 300, "thorough": 6000}),
+    Check("commitment_calls", execute, strategy=commitment_cases, budget={"quick": 300, "thorough": 6000}),
     Check("batching_calls", execute, strategy=batching_cases, budget={"quick": 150, "thorough": 3000}),
     Check("cplex_calls", execute, strategy=cplex_cases, budget={"quick": 120, "thorough": 3000}),
     Check("z3_calls", execute, strategy=z3_cases, budget={"quick": 120, "thorough": 3000}),
